@@ -769,13 +769,14 @@ def _run(ctx):
         add(inp, [1, len(res)] + res, desc)
         nontrivial.add(("venn_q", cn, cd, json.dumps(trains)))
     for fs_ in (2500.03125, 5000.125, 2500.5):
-        # default chunk 20 * fs and default bin int(0.4 * fs / 1000), spikes on the chunk boundaries
+        # default chunk 20 * fs with a non-integer rate, spikes on the chunk boundaries
         c = 20 * fs_
         fr = Fraction(c)
         bsamples = sorted({int(math.floor(j * c)) for j in (1, 2, 3)} | {int(math.ceil(j * c)) for j in (1, 2, 3)})
         trains = [[(b, rng.randrange(0, 4)) for b in bsamples] + [(int(3.5 * c), 1)],
                   [(b, rng.randrange(0, 4)) for b in bsamples[::2]] + [(int(3.5 * c) + 1, 1)]]
-        case = {"trains": trains, "xbin": 0, "ybin": 2, "nchan": 4, "chunk": 0, "fs": fs_}
+        xb_ = [500, 250, 1000][int(fs_) % 3]       # explicit time bin: the default (1 sample) would give 150 000 bins per chunk
+        case = {"trains": trains, "xbin": xb_, "ybin": 2, "nchan": 4, "chunk": 0, "fs": fs_}
         desc = dict(case, fn="spikes_venn2", chunk_fraction=[fr.numerator, fr.denominator], default_chunk=True)
         res = venn_call(case)
         count("venn_float_chunk_cases")
@@ -784,7 +785,7 @@ def _run(ctx):
             continue
         for b in venn_oracle(case, res):
             ctx.fail("venn (default chunk, fs = %s): %s" % (fs_, b), desc, {"kind": "venn_conservation"})
-        inp = [11, 2, int(0.4 * fs_ / 1000), 2, 4, fr.numerator, fr.denominator]
+        inp = [11, 2, xb_, 2, 4, fr.numerator, fr.denominator]
         for t in trains:
             inp += [len(t)] + [a for a, _ in t] + [b_ for _, b_ in t]
         add(inp, [1, len(res)] + res, desc)
@@ -1498,15 +1499,23 @@ def replay(ctx, data):
         case["trains"] = [[tuple(p) for p in t] for t in inp["trains"]]
         res = venn_call(case)
         print("implementation:", res)
-        model = common.Extracted(PROP).run_many([venn_enc_inp(case)])[0]
+        if inp.get("non_dyadic_chunk"):
+            model = None          # F-C20-d region: the exact rational model does not apply
+        elif "chunk_fraction" in inp:
+            minp = [11, len(case["trains"]), case["xbin"], case["ybin"], case["nchan"]] + list(inp["chunk_fraction"])
+            for t in case["trains"]:
+                minp += [len(t)] + [a for a, _ in t] + [b_ for _, b_ in t]
+            model = common.Extracted(PROP).run_many([minp])[0]
+        else:
+            model = common.Extracted(PROP).run_many([venn_enc_inp(case)])[0]
         print("model:", model)
         if isinstance(res, tuple):
             bad.append("raised " + str(res[1]))
-            if model != [0]:
+            if model is not None and model != [0]:
                 bad.append("model does not raise")
         else:
             bad += venn_oracle(case, res)
-            if model != [1, len(res)] + res:
+            if model is not None and model != [1, len(res)] + res:
                 bad.append("model differs")
     elif fn == "stack(header)":
         flat, why = stack_header_call(inp["word"], inp["data"], inp["ns"], inp["header"], inp["key_dtypes"])
